@@ -356,6 +356,8 @@ func (s *seekCounter) Seek(off int64, whence int) (int64, error) {
 type rawObj struct {
 	D   string // digest name
 	Sha string // sha256 of the bytes
+	A   string // algorithm named by D
+	H   string // hash of the bytes computed with A
 }
 
 type rawEdge struct {
@@ -436,7 +438,17 @@ func storeOfDir(dir string) (*store, error) {
 func (s *store) objList() []rawObj {
 	var out []rawObj
 	for d, b := range s.objs {
-		out = append(out, rawObj{D: d, Sha: sha256hex(b)})
+		o := rawObj{D: d, Sha: sha256hex(b)}
+		o.A, _, _ = strings.Cut(d, ":")
+		switch o.A {
+		case "sha256":
+			o.H = o.Sha
+		case "sha512":
+			o.H = sha512hex(b)
+		default:
+			o.H = "unsupported-algorithm"
+		}
+		out = append(out, o)
 	}
 	sort.Slice(out, func(i, j int) bool { return out[i].D < out[j].D })
 	return out
@@ -488,12 +500,11 @@ func (s *store) isSingleImage(d string) bool {
 }
 
 func objEvent(ev vtrace.Event, objs []rawObj) {
-	od, os := []string{}, []string{}
+	od, os, oa, oh := []string{}, []string{}, []string{}, []string{}
 	for _, o := range objs {
-		od = append(od, o.D)
-		os = append(os, o.Sha)
+		od, os, oa, oh = append(od, o.D), append(os, o.Sha), append(oa, o.A), append(oh, o.H)
 	}
-	ev["od"], ev["os"] = od, os
+	ev["od"], ev["os"], ev["oa"], ev["oh"] = od, os, oa, oh
 }
 
 func b2i(b bool) int {
@@ -541,7 +552,7 @@ func (d *driver) runOCI(key string, scns []*scenario) ([]*blockOut, error) {
 			if o.isMan {
 				e.src.PutManifest(srcRepo, "", o.mt, o.raw)
 			} else {
-				e.src.PutBlob(srcRepo, o.raw)
+				e.src.PutBlobAlg(srcRepo, o.alg(), o.raw)
 			}
 		}
 		for _, r := range c0.Roots {
@@ -709,7 +720,7 @@ func (d *driver) importOCI(e *env, g *graph, c *catRec, s *scenario, exports []*
 				if o.isMan {
 					e.tgt.PutManifest(repo, "", o.mt, o.raw)
 				} else {
-					e.tgt.PutBlob(repo, o.raw)
+					e.tgt.PutBlobAlg(repo, o.alg(), o.raw)
 				}
 			}
 		}
@@ -742,6 +753,9 @@ func (d *driver) importOCI(e *env, g *graph, c *catRec, s *scenario, exports []*
 			if bb, ok := st.objs[dig]; ok {
 				if u, _, err := gunzipIfNeeded(bb); err == nil {
 					if n, ok := g.byDig["sha256:"+sha256hex(u)]; ok {
+						return n
+					}
+					if n, ok := g.byDig["sha512:"+sha512hex(u)]; ok {
 						return n
 					}
 				}
